@@ -179,6 +179,20 @@ def gen_case(rng, stream='s2c'):
         if alpha in ('bool',):
             case['alpha'] = 'str'
             case['vals'] = [v % 8 for v in v2]
+    if case['tr'] is not None and rng.random() < 0.5:
+        # a strict transform: it raises on a value that only occurs at events the rule ignores (before the last event
+        # preceding the first dump, after the end of the last dump)
+        di = dump_indices(case)
+        prior = [i for i, d in enumerate(di) if d == -1]
+        out = [i for i, d in enumerate(di) if d >= N] + prior[:-1]
+        if prior and any(case['ts'][i] == case['ts'][prior[-1]] for i in prior[:-1]):
+            out = [i for i in out if case['ts'][i] != case['ts'][prior[-1]]]
+        unused = [c for c in range(min(len(case['tr']), len(ALPHA[case['alpha']]))) if c not in case['vals'] and c not in case['greedy']
+                  and c != case['init']]
+        if out and unused:
+            case['poison'] = unused[0]
+            for i in out:
+                case['vals'][i] = unused[0]
     return case
 
 
@@ -221,7 +235,9 @@ def py_inputs(case):
     if case['tr'] is not None:
         table = case['tr']
 
-        def tr(x, table=table, alpha=alpha, objs=objs):
+        def tr(x, table=table, alpha=alpha, objs=objs, poison=case.get('poison')):
+            if poison is not None and code_of(alpha, x.unwrapped if hasattr(x, 'unwrapped') else x) == poison:
+                raise KeyError('strict transform called on a value that only occurs outside the dumps')
             c = code_of(alpha, x)
             return objs[table[c]]
     init = None if case['init'] is None else objs[case['init']]
